@@ -232,6 +232,7 @@ func (w *World) Token(form url.Values, a Auth, mut ...TokenMut) (out *Out) {
 type Consent struct {
 	Deny     bool
 	Subject  string
+	EmptySubject bool // really use an empty subject (Subject "" otherwise means the default user)
 	Scopes   []string // nil => grant everything requested
 	NoAud    bool     // do not grant requested audience
 	SessMut  func(*Sess)
@@ -312,10 +313,10 @@ func (w *World) AuthorizeRaw(rawQuery string, c Consent) (out *AuthzOut) {
 		c.ReqMut(ar)
 	}
 	sub := c.Subject
-	if sub == "" {
+	if sub == "" && !c.EmptySubject {
 		sub = "user-1"
 	}
-	sess := NewSess(sub)
+	sess := w.NewSess(sub)
 	if c.SessMut != nil {
 		c.SessMut(sess)
 	}
@@ -513,7 +514,7 @@ func (w *World) Device(form url.Values, a Auth) (out *Out) {
 // request by the user code, validates the user code through the strategy (as
 // a consent app does) and records the user's decision, the granted scopes and
 // the user's session on the stored request.
-func (w *World) DeviceDecide(userCode string, accept bool, subject string, scopes []string, openidSession bool) error {
+func (w *World) DeviceDecide(userCode string, accept bool, subject string, scopes []string, openidSession bool, sessMut ...func(*Sess)) error {
 	ctx := context.Background()
 	strat := w.DeviceStrategy()
 	sig, err := strat.UserCodeSignature(ctx, userCode)
@@ -543,13 +544,16 @@ func (w *World) DeviceDecide(userCode string, accept bool, subject string, scope
 			target.GrantAudience(a)
 		}
 		old := target.GetSession()
-		ns := NewSess(subject)
+		ns := w.NewSess(subject)
 		if old != nil {
 			for _, tt := range []fosite.TokenType{fosite.UserCode, fosite.DeviceCode} {
 				if e := old.GetExpiresAt(tt); !e.IsZero() {
 					ns.SetExpiresAt(tt, e)
 				}
 			}
+		}
+		for _, m := range sessMut {
+			m(ns)
 		}
 		target.SetSession(ns)
 	} else {
